@@ -11,7 +11,7 @@
    being the same motion. *)
 From Coq Require Import List ZArith Bool.
 From T4V Require Import C05.Model C05.Spec C05.Proofs C05.Exec C05.Example C05.LinkC04.
-From T4V Require C06.Model C06.LinkC05 C05.LinkC06.
+From T4V Require C06.Model C06.LinkC05 C05.LinkC06 C06.ProofsDevelop C07.ProofsDevelop C05.LinkC04C06.
 Import ListNotations.
 Open Scope Z_scope.
 
@@ -547,6 +547,39 @@ Theorem C05_precedence_located_linked :
 Proof. exact precedence_located_linked. Qed.
 Print Assumptions C05_precedence_located_linked.
 
+(* ... the other two spellings need no normalisation at all: a TR number whose card holds O and a
+   matrix B with exactly orthonormal rows places the universe at B (p - O); three numbers (starred
+   or not, all zero included) place it at p - (a1, a2, a3) *)
+Theorem C05_precedence_located_linked_spellings :
+  forall (val : Z -> Rdefinitions.R) (norm : bool -> list Z -> list Z),
+  (forall star ps, norm star ps <> []) ->
+  (forall table mat rho geom imp u star univ trid n card trcl (cl : cell motion)
+          (s : state motion wfentry) du key p c r (o : C04.Spec.R3) (b : C04.Vec.M3 Rdefinitions.R),
+     (forall k cd, dget k table = Some cd -> cd <> []) ->
+     cell_of_keywords motion (mk_v val) norm table mat rho geom imp u (Some (star, univ, trid, [n])) trcl
+       = Ok cl ->
+     dget trid table = Some card -> map val card = C04.ProofsCompose.tr12 o b ->
+     C04.Spec.rows_orthonormal b ->
+     dget key (s_cells s) = Some cl ->
+     LocW motion wfentry C04.Spec.R3 m_empty m_inv m_sense s du key p (key :: c :: r) true ->
+     LocW motion wfentry C04.Spec.R3 m_empty m_inv m_sense s du c (C04.Spec.to_aux o b p) (c :: r) true) /\
+  (forall table mat rho geom imp u star univ trid a1 a2 a3 trcl (cl : cell motion)
+          (s : state motion wfentry) du key p c r,
+     val 0 = Rdefinitions.IZR 0 -> val 1 = Rdefinitions.IZR 1 ->
+     (forall k cd, dget k table = Some cd -> cd <> []) ->
+     cell_of_keywords motion (mk_v val) norm table mat rho geom imp u
+                      (Some (star, univ, trid, [a1; a2; a3])) trcl = Ok cl ->
+     dget key (s_cells s) = Some cl ->
+     LocW motion wfentry C04.Spec.R3 m_empty m_inv m_sense s du key p (key :: c :: r) true ->
+     LocW motion wfentry C04.Spec.R3 m_empty m_inv m_sense s du c
+          (C04.Spec.to_aux (C04.Vec.mkV (val a1) (val a2) (val a3)) idm3 p) (c :: r) true).
+Proof.
+  intros val norm Hn. split.
+  - exact (precedence_located_linked_number val norm Hn).
+  - exact (precedence_located_linked_translation val norm Hn).
+Qed.
+Print Assumptions C05_precedence_located_linked_spellings.
+
 (* ===== the FILL loop and inlining from ANY table ================================================
    (fresh counters, empty cache, no provenance; the table need not come from the TRCL loop) *)
 Theorem C05_fill_inline_located :
@@ -679,6 +712,156 @@ Theorem C05_pipeline_with_lattices_linked :
           (fill_keys (s_cells sd)) rs.
 Proof. exact C05.LinkC06.pipeline_with_lattices. Qed.
 Print Assumptions C05_pipeline_with_lattices_linked.
+
+(* ===== a generated cell keeps the importance and the universe of the cell it fills ===========
+   (C09, C01, C12 rely on it: IMP:x=0 on the filled cell silences every cell generated for it, and
+   generated cells stay in the filled cell's universe).  KeepsFields s s' key ks: the cell [key] of
+   [s] exists and every k in ks is a cell of [s'] with its c_imp and c_univ.  First for the FILL
+   loop alone, then for the whole chain TRCL -> FILL -> inlining against the cards. *)
+Theorem C05_generated_keeps_importance :
+  forall (T surf P : Type) (tr_empty : T -> bool) (teqb : T -> T -> bool)
+         (tr_surf : T -> surf -> surf) (inv : T -> P -> P) (sense : surf -> P -> bool),
+  sense_law tr_surf inv sense -> key_law tr_empty teqb inv ->
+  (forall fuel cf ifd ifg (s : state T surf) rs s',
+     fresh_ok T surf s -> s_cache s = [] ->
+     (forall c cl, dget c (s_cells s) = Some cl -> c_orig cl = []) ->
+     fill_phase T surf tr_empty teqb tr_surf fuel cf ifd ifg s = Ok (rs, s') ->
+     Forall2 (KeepsFields T surf s s') (fill_keys (s_cells s)) rs) /\
+  (forall fuel cf ifd ifg num den (s0 s1 s2 : state T surf) rs cells3,
+     fresh_ok T surf s0 -> s_cache s0 = [] -> NoDup (map fst (s_cells s0)) -> all_ref_free T surf s0 ->
+     (forall c cl, dget c (s_cells s0) = Some cl -> c_orig cl = []) ->
+     trcl_phase T surf tr_empty teqb tr_surf fuel (map fst (s_cells s0)) s0 = Ok s1 ->
+     fill_phase T surf tr_empty teqb tr_surf fuel cf ifd ifg s1 = Ok (rs, s2) ->
+     inline_cells T fuel num den (s_cells s2) = Ok cells3 ->
+     Forall2 (KeepsFields T surf s0 (set_cells T surf s2 cells3)) (fill_keys (s_cells s0)) rs).
+Proof.
+  intros T surf P tr_empty teqb tr_surf inv sense H1 H2. split.
+  - exact (generated_keeps_importance T surf P tr_empty teqb tr_surf inv sense H1 H2).
+  - exact (pipeline_keeps_importance T surf P tr_empty teqb tr_surf inv sense H1 H2).
+Qed.
+Print Assumptions C05_generated_keeps_importance.
+
+(* ===== the C04 and the C06 instance unified (coq/C05/LinkC04C06.v) ==============================
+   transformations = lists of reals read through motion_of_reals (the empty tuple; twelve numbers
+   with exactly orthonormal rows = C04's motion, l_inv = B (p - O), l_tr_surf = transformation()
+   on every part; any other list: the identity motion, where C04 has no law - the statement is
+   about the converter only for decks whose transformations are exactly orthonormal, which
+   develop_lattice preserves by C06_link_inverse_satisfiable); points = C06's triples, bridged to
+   C04's records.  Both laws are theorems, so the lattice chain has NO interface hypothesis. *)
+Theorem C05_lattice_laws_linked :
+  sense_law LinkC04C06.l_tr_surf LinkC04C06.l_inv LinkC04C06.l_sense /\
+  key_law (@C06.Model.is_nil Rdefinitions.R) LinkC04C06.l_eqb LinkC04C06.l_inv /\
+  (forall o b p, C04.Spec.rows_orthonormal b ->
+     LinkC04C06.l_inv (C04.ProofsCompose.tr12 o b) p
+     = LinkC04C06.vec_of (C04.Spec.to_aux o b (LinkC04C06.v3_of p))) /\
+  (forall p, LinkC04C06.l_inv [] p = p).
+Proof.
+  split; [exact LinkC04C06.l_sense_law|]. split; [exact LinkC04C06.l_key_law|].
+  split; [exact LinkC04C06.l_inv_tr12 | exact LinkC04C06.l_inv_nil].
+Qed.
+Print Assumptions C05_lattice_laws_linked.
+
+Theorem C05_pipeline_with_lattices_linked2 :
+  forall fuel cf ifd ifg num den (s0 s1 sd s3 : state (list Rdefinitions.R) wfentry) lats rs cells4,
+  fresh_ok _ wfentry s0 -> s_cache s0 = [] -> NoDup (map fst (s_cells s0)) ->
+  all_ref_free _ wfentry s0 -> C05.LinkC06.no_orig wfentry s0 ->
+  trcl_phase _ wfentry (@C06.Model.is_nil _) LinkC04C06.l_eqb LinkC04C06.l_tr_surf fuel
+             (map fst (s_cells s0)) s0 = Ok s1 ->
+  C05.LinkC06.lat_phase wfentry LinkC04C06.l_eqb LinkC04C06.l_tr_surf fuel lats s1 = Ok sd ->
+  fill_phase _ wfentry (@C06.Model.is_nil _) LinkC04C06.l_eqb LinkC04C06.l_tr_surf fuel cf ifd ifg sd
+    = Ok (rs, s3) ->
+  inline_cells _ fuel num den (s_cells s3) = Ok cells4 ->
+  Forall2 (Outcome _ wfentry _ (@C06.Model.is_nil _) LinkC04C06.l_inv LinkC04C06.l_sense sd
+                   (by_universe (s_cells sd)) (set_cells _ wfentry s3 cells4))
+          (fill_keys (s_cells sd)) rs.
+Proof. exact LinkC04C06.pipeline_with_lattices_linked2. Qed.
+Print Assumptions C05_pipeline_with_lattices_linked2.
+
+Theorem C05_pipeline_with_lattice_linked2 :
+  forall fuel cf ifd ifg num den (s0 s1 s2 s3 : state (list Rdefinitions.R) wfentry) rs cells4 latkey lcl
+         (elems : list (@C06.Model.new_elem Rdefinitions.R)) keys,
+  fresh_ok _ wfentry s0 -> s_cache s0 = [] -> NoDup (map fst (s_cells s0)) ->
+  all_ref_free _ wfentry s0 -> C05.LinkC06.no_orig wfentry s0 ->
+  trcl_phase _ wfentry (@C06.Model.is_nil _) LinkC04C06.l_eqb LinkC04C06.l_tr_surf fuel
+             (map fst (s_cells s0)) s0 = Ok s1 ->
+  dget latkey (s_cells s1) = Some lcl ->
+  Forall (fun e => C06.Model.is_nil (C06.Model.ne_trnsf e) = false) elems ->
+  C06.LinkC05.develop_state wfentry LinkC04C06.l_eqb LinkC04C06.l_tr_surf fuel latkey elems s1
+    = Ok (keys, s2) ->
+  fill_phase _ wfentry (@C06.Model.is_nil _) LinkC04C06.l_eqb LinkC04C06.l_tr_surf fuel cf ifd ifg
+             (del_cell _ wfentry s2 latkey) = Ok (rs, s3) ->
+  inline_cells _ fuel num den (s_cells s3) = Ok cells4 ->
+  let sd := del_cell _ wfentry s2 latkey in
+  dget latkey (s_cells sd) = None /\
+  (forall k cl, k <> latkey -> dget k (s_cells s0) = Some cl ->
+     exists g', dget k (s_cells sd) = Some (with_geom cl g') /\
+       forall p b, Den _ wfentry _ LinkC04C06.l_sense s0
+                       (act_seq _ _ (@C06.Model.is_nil _) LinkC04C06.l_inv (c_trcl cl) p) (c_geom cl) b ->
+                   Den _ wfentry _ LinkC04C06.l_sense sd p g' b) /\
+  Forall2 (C05.LinkC06.ElemOf wfentry LinkC04C06.l_inv LinkC04C06.l_sense s1 latkey lcl sd) elems keys /\
+  Forall2 (Outcome _ wfentry _ (@C06.Model.is_nil _) LinkC04C06.l_inv LinkC04C06.l_sense sd
+                   (by_universe (s_cells sd)) (set_cells _ wfentry s3 cells4))
+          (fill_keys (s_cells sd)) rs.
+Proof. exact LinkC04C06.pipeline_with_lattice_linked2. Qed.
+Print Assumptions C05_pipeline_with_lattice_linked2.
+
+(* the point located through the lattice, in the unified instance (no interface hypothesis) *)
+Theorem C05_located_through_lattice_linked2 :
+  forall fuel cf ifd ifg num den (s0 s1 s2 s3 : state (list Rdefinitions.R) wfentry) rs cells4 latkey lcl
+         (elems : list (@C06.Model.new_elem Rdefinitions.R)) keys,
+  fresh_ok _ wfentry s0 -> s_cache s0 = [] -> NoDup (map fst (s_cells s0)) ->
+  all_ref_free _ wfentry s0 -> C05.LinkC06.no_orig wfentry s0 ->
+  trcl_phase _ wfentry (@C06.Model.is_nil _) LinkC04C06.l_eqb LinkC04C06.l_tr_surf fuel (map fst (s_cells s0)) s0 = Ok s1 ->
+  dget latkey (s_cells s1) = Some lcl ->
+  Forall (fun e => C06.Model.is_nil (C06.Model.ne_trnsf e) = false) elems ->
+  C06.LinkC05.develop_state wfentry LinkC04C06.l_eqb LinkC04C06.l_tr_surf fuel latkey elems s1 = Ok (keys, s2) ->
+  fill_phase _ wfentry (@C06.Model.is_nil _) LinkC04C06.l_eqb LinkC04C06.l_tr_surf fuel cf ifd ifg (del_cell _ wfentry s2 latkey)
+    = Ok (rs, s3) ->
+  inline_cells _ fuel num den (s_cells s3) = Ok cells4 ->
+  let sd := del_cell _ wfentry s2 latkey in
+  let du := by_universe (s_cells sd) in
+  let sf := set_cells _ wfentry s3 cells4 in
+  forall key kcl U e ke ecl p,
+  In key (fill_keys (s_cells sd)) ->
+  dget key (s_cells sd) = Some kcl -> c_fill kcl = Some U ->
+  In (e, ke) (combine elems keys) ->
+  dget ke (s_cells sd) = Some ecl -> c_univ ecl = U ->
+  Den _ wfentry _ LinkC04C06.l_sense sd p (c_geom kcl) true ->
+  Den _ wfentry _ LinkC04C06.l_sense s1 (LinkC04C06.l_inv (C06.Model.ne_trnsf e) (frame _ _ (@C06.Model.is_nil _) LinkC04C06.l_inv kcl p))
+      (TRef latkey) true ->
+  exists ks, In ks rs /\
+  (C06.Model.ne_fill e = None ->
+     exists k ncl, In k ks /\ dget k (s_cells sf) = Some ncl /\ Den _ wfentry _ LinkC04C06.l_sense sf p (TRef k) true /\
+       c_fill ncl = None /\ c_orig ncl = prov [key; ke] /\
+       c_mat ncl = c_mat lcl /\ c_rho ncl = c_rho lcl) /\
+  (forall u c ch, C06.Model.ne_fill e = Some u -> C06.Model.is_nil (C06.Model.ne_filltr e) = false ->
+     In c (du_get u du) ->
+     Located _ wfentry _ (@C06.Model.is_nil _) LinkC04C06.l_inv LinkC04C06.l_sense sd du c
+             (LinkC04C06.l_inv (C06.Model.ne_filltr e) (frame _ _ (@C06.Model.is_nil _) LinkC04C06.l_inv kcl p)) ch ->
+     exists k ncl lfl, In k ks /\ dget k (s_cells sf) = Some ncl /\
+       Den _ wfentry _ LinkC04C06.l_sense sf p (TRef k) true /\
+       c_fill ncl = None /\ c_orig ncl = prov (key :: ke :: ch) /\
+       dget (last ch 0) (s_cells sd) = Some lfl /\ c_mat ncl = c_mat lfl /\ c_rho ncl = c_rho lfl).
+Proof.
+  exact (C05.LinkC06.located_through_lattice wfentry LinkC04C06.l_eqb LinkC04C06.l_tr_surf
+           LinkC04C06.l_inv LinkC04C06.l_sense LinkC04C06.l_sense_law LinkC04C06.l_key_law).
+Qed.
+Print Assumptions C05_located_through_lattice_linked2.
+
+(* LAT=1 (C06) and LAT=2 (C07) alike: every element list develop_lattice_with returns - with the
+   square base vectors or with C07's hexagonal ones - satisfies the hypothesis "no element has an
+   empty transformation" of the chain theorems above *)
+Theorem C05_lattice_elements_accepted_linked :
+  (forall (cell : @C06.Model.lat_cell Rdefinitions.R) base elems,
+     C06.ProofsDevelop.cell_shape_ok cell ->
+     C06.Model.develop_lattice_with Base.Scalar.RS base cell = C06.Model.Ok elems ->
+     Forall (fun e => C06.Model.is_nil (C06.Model.ne_trnsf e) = false) elems) /\
+  (forall surfs (cell : @C06.Model.lat_cell Rdefinitions.R) elems,
+     C06.ProofsDevelop.cell_shape_ok cell ->
+     C07.ProofsDevelop.develop_lattice_hex surfs cell = C06.Model.Ok elems ->
+     Forall (fun e => C06.Model.is_nil (C06.Model.ne_trnsf e) = false) elems).
+Proof. split; [exact LinkC04C06.lattice_elems_accepted | exact LinkC04C06.hex_lattice_elems_accepted]. Qed.
+Print Assumptions C05_lattice_elements_accepted_linked.
 
 (* non-vacuity of the two lattice theorems: a concrete table (container 1 filled with universe 1 =
    the lattice cell 5), one element with a translation, a degenerate surface instance that obeys
